@@ -30,3 +30,16 @@ package cfgbackend
 //@   ensures err == nil && api.preExists ==> value == api.preVal + 1
 //@   ensures err == nil && !api.preExists ==> value == 1
 //@   ensures err == nil ==> value > old(api.kVal)
+
+// ---------------------------------------------------------------------------------------------------------
+// C20: "does this entry exist" is answered with an error only when the store could not be read (or the key carries a
+// malformed array index); a key that leads nowhere - missing element, or a path that runs into a plain value where a
+// sub-tree was expected - is simply absent, so that resolution falls back to the next, less specific candidate.
+//@ func (yc *YamlSource) Exists(key string) (exists bool, err error)
+//@   property C20
+//@   ghostvar unreadable bool = false
+//@   ghostvar badIndex bool = false
+//@   on aftercall (*YamlSource).refresh : unreadable = result != nil
+//@   on aftercall strconv.Atoi : badIndex = badIndex || result1 != nil
+//@   loop 1 invariant err == nil && !unreadable && !badIndex
+//@   ensures !unreadable && !badIndex ==> err == nil
